@@ -41,6 +41,7 @@ pub fn run_line(line: &str) -> String {
         "chkbool" => crate::tree::run_chkbool(&mut t),
         "json" => crate::tree::run_json(&mut t),
         "jsonin" => crate::tree::run_jsonin(&mut t),
+        "slowpure" => run_slowpure(&mut t),
         _ => None,
     };
     r.unwrap_or_else(|| "bad".into())
@@ -134,3 +135,32 @@ fn show_fn(f: &slac::function::Function) -> String {
 
 #[allow(dead_code)]
 pub fn unused(_: &V) {}
+
+/// `slowpure <family>`: ONE pure builtin on inputs that grow (doubling) until a single call needs about two seconds of wall-clock time (or the size cap
+/// is reached); every answer is compared with what the arguments determine.  A result that depends on how long the call takes (a time budget, a
+/// watchdog, a "give up after …" guard) shows here and nowhere among calls that return in microseconds.  Answer: `same` or `differs …`.
+fn run_slowpure(t: &mut Toks) -> Option<String> {
+    use slac::stdlib::{common, regex, string};
+    let fam = t.next()?.to_string();
+    let s = |x: &str| V::String(x.to_string());
+    let mut n: usize = 1 << 18; let cap: usize = 1 << 24;
+    loop {
+        let hay = "ab1".repeat(n);
+        let t0 = std::time::Instant::now();
+        let verdict: Result<(), String> = match fam.as_str() {
+            "re_find" => match regex::find(&[s(&hay), s("[a-z]+\\d")]) { Ok(V::Array(a)) if a.len() == n && a.first() == Some(&s("ab1")) && a.last() == Some(&s("ab1")) => Ok(()), Ok(V::Array(a)) => Err(format!("{} matches", a.len())), o => Err(format!("{:?}", o.map(|_| ()))) },
+            "re_replace" => match regex::replace(&[s(&hay), s("[a-z]+\\d"), s("x")]) { Ok(V::String(r)) if r.len() == n && r.bytes().all(|b| b == b'x') => Ok(()), Ok(V::String(r)) => Err(format!("len {}", r.len())), o => Err(format!("{:?}", o.map(|_| ()))) },
+            "re_is_match" => match regex::is_match(&[s(&hay), s("^([a-z]+\\d)*$")]) { Ok(V::Boolean(true)) => Ok(()), o => Err(format!("{:?}", o)) },
+            "contains" => match common::contains(&[s(&hay), s("b1b")]) { Ok(V::Boolean(false)) => Ok(()), o => Err(format!("{:?}", o)) },
+            "replace" => match common::replace(&[s(&hay), s("b1"), s("")]) { Ok(V::String(r)) if r.len() == n => Ok(()), Ok(V::String(r)) => Err(format!("len {}", r.len())), o => Err(format!("{:?}", o.map(|_| ()))) },
+            "split" => match string::split(&[s(&hay), s("1")]) { Ok(V::Array(a)) if a.len() == n + 1 => Ok(()), Ok(V::Array(a)) => Err(format!("{} parts", a.len())), o => Err(format!("{:?}", o.map(|_| ()))) },
+            "sort" => { let v: Vec<V> = (0..n).rev().map(|i| V::Number(i as f64)).collect(); match common::sort(&[V::Array(v)]) { Ok(V::Array(a)) if a.len() == n && a.windows(2).all(|w| w[0] <= w[1]) && a[0] == V::Number(0.0) => Ok(()), o => Err(format!("{:?}", o.map(|_| ()))) } }
+            "unique" => { let m = n >> 6; let v: Vec<V> = (0..m).map(|i| V::Number((i % 1000) as f64)).collect(); match common::unique(&[V::Array(v)]) { Ok(V::Array(a)) if a.len() == 1000.min(m) => Ok(()), Ok(V::Array(a)) => Err(format!("{} distinct", a.len())), o => Err(format!("{:?}", o.map(|_| ()))) } }
+            _ => return None,
+        };
+        let dt = t0.elapsed().as_secs_f64();
+        if let Err(why) = verdict { return Some(format!("differs {} size {} after {:.1} s: {}", fam, n, dt, why)); }
+        if dt >= 1.6 || n >= cap { return Some("same".into()); }
+        n *= 2;
+    }
+}
